@@ -274,6 +274,42 @@ func extractC09() *lean {
 		})
 	}
 	l.def("updateSteps", "List String", leanStrList(updSteps), updSteps)
+	// where the succeeded version comes from (every assignment to currentDIDDocument), how the fallback treats errors,
+	// and which relationship of the controllers the authorising keys are collected from
+	var curSources, collected []string
+	fallbackErr := ""
+	if fd := c09Method(amb, "ambassador", "handleUpdateDIDDocument"); fd != nil {
+		ast.Inspect(fd, func(n ast.Node) bool {
+			switch x := n.(type) {
+			case *ast.AssignStmt:
+				for _, lh := range x.Lhs {
+					if exprString(lh) == "currentDIDDocument" && len(x.Rhs) == 1 {
+						if c, ok := x.Rhs[0].(*ast.CallExpr); ok {
+							curSources = append(curSources, exprString(c.Fun))
+						} else {
+							curSources = append(curSources, c09Src(x.Rhs[0]))
+						}
+					}
+				}
+			case *ast.IfStmt:
+				if exprString(x.Cond) == "currentDIDDocument == nil" {
+					for _, st := range x.Body.List {
+						if is, ok := st.(*ast.IfStmt); ok {
+							fallbackErr = c09Src(is.Cond)
+						}
+					}
+				}
+			case *ast.SelectorExpr:
+				if exprString(x.X) == "didCtrl" {
+					collected = append(collected, x.Sel.Name)
+				}
+			}
+			return true
+		})
+	}
+	l.def("succeededVersionSources", "List String", leanStrList(curSources), curSources)
+	l.def("updateFallbackErrorCondition", "String", strconv.Quote(fallbackErr), fallbackErr)
+	l.def("controllerKeysCollectedFrom", "List String", leanStrList(collected), collected)
 	l.def("updateFallsBackToLatest", "Bool", map[bool]string{true: "true", false: "false"}[fallbackLatest], fallbackLatest)
 
 	// ambassador.resolveControllers: skipped errors in the per-prev loop and the by-time fallback
